@@ -652,10 +652,45 @@ def r7_type_is_inline_positional(ctx, F):
                   "positionally is replaced by a type test instead of failing", fn=f, line=site.line)
 
 
+KEEP_ARMS = ("Return", "Assign", "AssignModify", "Break", "Continue", "PossibleGc")
+
+
+def r9_statements_kept(ctx, F, rule="C02.R9"):
+    """the statement optimiser (run again on freeze with module constants inlined) may drop an expression statement, an
+    `if` or a `for` - through StmtsCompiled::expr / if_stmt / for_stmt, which ask the purity analysis - but an assignment,
+    an augmented assignment (`x += []` must still fail on a frozen list), a return, break or continue always yields
+    exactly one statement"""
+    from kern import match_arms
+    f = F.one(r"eval::compiler::stmt::<impl eval::compiler::span::IrSpanned<eval::compiler::stmt::StmtCompiled>>::optimize$")
+    m = match_arms(F, f, r"stmt::StmtCompiled$")
+    if not m:
+        ctx.bad(rule, "stmt-optimize:anchor", "anchor-missing: match on StmtCompiled in optimize", fn=f)
+        return
+    bb, arms, other, allv = m
+    drop = {c.bb for c in f.calls if c.bb not in f.cleanup and re.search(
+        r"StmtsCompiled::(empty|expr|if_stmt|for_stmt|default)$|Default>::default$", c.name) and "StmtsCompiled" in c.name + c.full}
+    one = {c.bb for c in f.calls if c.bb not in f.cleanup and re.search(r"StmtsCompiled::one$", c.name)}
+    rets = set(f.returns())
+    for a in KEEP_ARMS:
+        if a not in arms:
+            ctx.bad(rule, "stmt-kept:%s:anchor" % a, "anchor-missing: arm %s of StmtCompiled in optimize" % a, fn=f)
+            continue
+        region = f.reach([arms[a]])
+        ctx.check(not (region & drop) and not (rets & f.reach([arms[a]], cut_blocks=one)), rule, "stmt-kept:" + a,
+                  "the %s arm always produces one statement" % a,
+                  "StmtCompiled::optimize can drop a `%s` statement (an empty StmtsCompiled is reachable from its arm): "
+                  "the statement's effect - including its failure, e.g. `x += []` on a frozen list - disappears once "
+                  "the module is frozen" % a, fn=f)
+
+
 def run(ctx):
     F = ctx.facts("core")
     r6_specialised_equality(ctx, F)
+    r9_statements_kept(ctx, F)
     r7_type_is_inline_positional(ctx, F)
+    # the re-optimisation on freeze uses the declaring module of each def (shared with C04.R1)
+    from rules.C04 import post_freeze_declaring_module
+    post_freeze_declaring_module(ctx, F, rule="C02.R8")
     r1_speculative(ctx, F)
     r2_purity(ctx, F)
     r3_folds(ctx, F)
